@@ -1,6 +1,7 @@
 /-
   Props/C02.lean — built-in openers trip exactly on their documented threshold.
 -/
+import CircuitProofs.Props.C02Tie
 import CircuitModel.OpenerOps
 import CircuitModel.CircuitOps
 import CircuitProofs.Lemmas.RC
